@@ -14,7 +14,9 @@ if ! cmp -s _CoqProject.new _CoqProject || [ ! -f Makefile ]; then
 else
   rm -f _CoqProject.new
 fi
-timeout 2700 make -j16 > build.log 2>&1
+log=build.$$.log
+timeout 2700 make -j16 "$@" > $log 2>&1
 rc=$?
-grep -v "^COQDEP\|^COQC\|^CLEAN\|Nothing to be done\|^make" build.log || true
+grep -v "^COQDEP\|^COQC\|^CLEAN\|Nothing to be done\|^make\|is up to date" $log || true
+rm -f $log
 exit $rc
